@@ -259,6 +259,35 @@ Proof.
   intros. rewrite S1, C1. apply get_put_other; assumption.
 Qed.
 
+(* the share-agreement table is never written by a swap *)
+Lemma charge_skim : forall s sender dIn amt dOut ex s1 r, charge_taker_fee P s sender dIn amt dOut ex = Ok (s1, r) -> skim s1 = skim s.
+Proof.
+  unfold charge_taker_fee; intros. destruct (whitelisted s sender); [inversion H; reflexivity|].
+  destruct (if ex then Ok (calc_fee_in amt (taker_fee s dIn dOut)) else calc_fee_out amt (taker_fee s dIn dOut)) as [[a f]|]; [|discriminate].
+  destruct (send_new (bal s) sender Collector dIn f); inversion H; reflexivity.
+Qed.
+Lemma settle_skim : forall s sender pid p' dIn tin dOut tout s', settle P s sender pid p' dIn tin dOut tout = Ok s' -> skim s' = skim s.
+Proof.
+  unfold settle; intros. destruct (send_raw (bal s) sender (PoolAcc pid) dIn tin) as [b1|]; [|discriminate].
+  destruct (send_raw b1 (PoolAcc pid) sender dOut tout); inversion H; reflexivity.
+Qed.
+Lemma pm_in_skim : forall s sender pid dIn amt dOut m s' r, pm_swap_exact_in P s sender pid dIn amt dOut m = Ok (s', r) -> skim s' = skim s.
+Proof.
+  intros. destruct r as [out fee]. apply pm_in_inv in H. destruct H as (p & s1 & after & _ & _ & C & Md).
+  apply module_in_inv in Md. destruct Md as (p' & tin & _ & _ & _ & _ & St).
+  apply settle_skim in St. apply charge_skim in C. congruence.
+Qed.
+Lemma loop_in_skim : forall route s sender dIn amt minOut s' out,
+  route_in_loop P s sender route dIn amt minOut = Ok (s', out) -> skim s' = skim s.
+Proof.
+  induction route as [|[pid dOut] rest IH]; intros; cbn [route_in_loop] in H; [discriminate|].
+  destruct (pm_swap_exact_in P s sender pid dIn amt dOut (match rest with [] => minOut | _ :: _ => 1 end)) as [[s1 [o f]]|] eqn:E; [|discriminate].
+  apply pm_in_skim in E. destruct rest as [|h2 rest']; [inversion H; subst; assumption|].
+  apply IH in H. congruence.
+Qed.
+Lemma skim_ok_ext : forall (s s2 : state P) ds, skim s2 = skim s -> skim_ok P s2 ds = skim_ok P s ds.
+Proof. intros. unfold skim_ok. rewrite H. reflexivity. Qed.
+
 (* ------------------------------------------------------------------ limits: exact-in *)
 Lemma pm_swap_exact_in_min : forall s sender pid dIn amt dOut minOut s' out fee,
   pm_swap_exact_in P s sender pid dIn amt dOut minOut = Ok (s', (out, fee)) -> minOut <= out /\ 0 < out.
@@ -267,10 +296,23 @@ Proof.
   apply module_in_inv in M. destruct M as (p' & tin & _ & ? & ? & _). auto.
 Qed.
 
-Lemma route_in_min_out : forall route s sender dIn amt minOut s' out,
-  route_exact_in P s sender route dIn amt minOut = Ok (s', out) -> minOut <= out /\ 0 < out.
+(* RouteExactAmountIn = the hop loop, then the TakerFeeSkim validation *)
+Lemma route_in_ok : forall s sender route dIn amt minOut s' out,
+  route_exact_in P s sender route dIn amt minOut = Ok (s', out) <->
+  route_in_loop P s sender route dIn amt minOut = Ok (s', out) /\ skim_ok P s' (dIn :: map snd route) = true.
 Proof.
-  unfold route_exact_in.
+  intros. unfold route_exact_in. destruct (route_in_loop P s sender route dIn amt minOut) as [[s1 o]|e].
+  - destruct (skim_ok P s1 (dIn :: map snd route)) eqn:K; split.
+    + intro H; inversion H; subst; auto.
+    + intros [H _]; exact H.
+    + discriminate.
+    + intros [H K2]. inversion H; subst. congruence.
+  - split; [discriminate|intros [H _]; discriminate].
+Qed.
+
+Lemma loop_in_min_out : forall route s sender dIn amt minOut s' out,
+  route_in_loop P s sender route dIn amt minOut = Ok (s', out) -> minOut <= out /\ 0 < out.
+Proof.
   induction route as [|[pid dOut] rest IH]; intros; simpl in H; [discriminate|].
   destruct rest as [|h rest'].
   - destruct (pm_swap_exact_in P s sender pid dIn amt dOut minOut) as [[s1 [o f]]|] eqn:E; [|discriminate].
@@ -279,16 +321,20 @@ Proof.
     eapply IH; eauto.
 Qed.
 
+Lemma route_in_min_out : forall route s sender dIn amt minOut s' out,
+  route_exact_in P s sender route dIn amt minOut = Ok (s', out) -> minOut <= out /\ 0 < out.
+Proof. intros. apply route_in_ok in H. destruct H as [H _]. eapply loop_in_min_out; eauto. Qed.
+
 (* ------------------------------------------------------------------ composition: exact-in *)
 (* a multi-hop route = its first hop (minimum 1) followed by the rest of the route fed with the first hop's output *)
-Lemma route_in_cons : forall s sender h rest dIn amt minOut, rest <> [] ->
-  route_exact_in P s sender (h :: rest) dIn amt minOut =
-  match route_exact_in P s sender [h] dIn amt 1 with
+Lemma loop_in_cons : forall s sender h rest dIn amt minOut, rest <> [] ->
+  route_in_loop P s sender (h :: rest) dIn amt minOut =
+  match route_in_loop P s sender [h] dIn amt 1 with
   | Err e => Err e
-  | Ok (s1, out) => route_exact_in P s1 sender rest (snd h) out minOut
+  | Ok (s1, out) => route_in_loop P s1 sender rest (snd h) out minOut
   end.
 Proof.
-  intros. unfold route_exact_in. destruct h as [pid dOut]. destruct rest as [|h2 rest']; [congruence|].
+  intros. destruct h as [pid dOut]. destruct rest as [|h2 rest']; [congruence|].
   simpl. destruct (pm_swap_exact_in P s sender pid dIn amt dOut 1) as [[s1 [o f]]|]; reflexivity.
 Qed.
 
@@ -313,14 +359,13 @@ Fixpoint hop_mins (route : list (Z * Z)) (minOut : Z) : list Z :=
 Lemma fold_in_step_err : forall sender l e, fold_left (in_step sender) l (Err e) = Err e.
 Proof. induction l; intros; simpl; auto. Qed.
 
-Lemma route_in_eq_fold : forall route s sender dIn amt minOut, route <> [] ->
-  route_exact_in P s sender route dIn amt minOut =
+Lemma loop_in_eq_fold : forall route s sender dIn amt minOut, route <> [] ->
+  route_in_loop P s sender route dIn amt minOut =
   match fold_left (in_step sender) (combine route (hop_mins route minOut)) (Ok (s, (dIn, amt))) with
   | Err e => Err e
   | Ok (s', (_, out)) => Ok (s', out)
   end.
 Proof.
-  unfold route_exact_in.
   induction route as [|[pid dOut] rest IH]; intros; [congruence|].
   destruct rest as [|h2 rest'].
   - simpl. destruct (pm_swap_exact_in P s sender pid dIn amt dOut minOut) as [[s1 [o f]]|]; reflexivity.
@@ -337,6 +382,17 @@ Proof.
     destruct (pm_swap_exact_in P s sender pid dIn amt dOut 1) as [[s1 [o f]]|].
     + rewrite IH by assumption. reflexivity.
     + rewrite fold_in_step_err. reflexivity.
+Qed.
+
+Lemma route_in_eq_fold : forall route s sender dIn amt minOut, route <> [] ->
+  route_exact_in P s sender route dIn amt minOut =
+  match fold_left (in_step sender) (combine route (hop_mins route minOut)) (Ok (s, (dIn, amt))) with
+  | Err e => Err e
+  | Ok (s', (_, out)) => if skim_ok P s' (dIn :: map snd route) then Ok (s', out) else Err ESkim
+  end.
+Proof.
+  intros. unfold route_exact_in. rewrite loop_in_eq_fold by assumption.
+  destruct (fold_left (in_step sender) (combine route (hop_mins route minOut)) (Ok (s, (dIn, amt)))) as [[s' [d o]]|]; reflexivity.
 Qed.
 
 (* ------------------------------------------------------------------ composition: exact-out as a fold *)
@@ -558,14 +614,18 @@ Proof.
   rewrite A, B. reflexivity.
 Qed.
 
-Lemma route_in_min01 : forall route s sender dIn amt,
-  route_exact_in P s sender route dIn amt 0 = route_exact_in P s sender route dIn amt 1.
+Lemma loop_in_min01 : forall route s sender dIn amt,
+  route_in_loop P s sender route dIn amt 0 = route_in_loop P s sender route dIn amt 1.
 Proof.
-  unfold route_exact_in. induction route as [|[pid dOut] rest IH]; intros; [reflexivity|].
+  induction route as [|[pid dOut] rest IH]; intros; [reflexivity|].
   simpl. destruct rest as [|h2 rest'].
   - rewrite pm_in_min01. reflexivity.
   - destruct (pm_swap_exact_in P s sender pid dIn amt dOut 1) as [[s1 [o f]]|]; [|reflexivity]. apply IH.
 Qed.
+
+Lemma route_in_min01 : forall route s sender dIn amt,
+  route_exact_in P s sender route dIn amt 0 = route_exact_in P s sender route dIn amt 1.
+Proof. intros. unfold route_exact_in. rewrite loop_in_min01. reflexivity. Qed.
 
 (* ------------------------------------------------------------------ messages *)
 Lemma step_err_unchanged : forall s m s' e, step P s m = (s', Err e) -> s' = s.
@@ -586,22 +646,32 @@ Proof.
 Qed.
 
 Theorem swap_in_msg_compose : forall s sender h rest dIn amt minOut, rest <> [] -> 0 < minOut ->
+  (* the taker-fee share agreements let the whole route and its two parts through (see C05_compose_skim_refuted) *)
+  skim_ok P s (dIn :: map snd (h :: rest)) = true -> skim_ok P s [dIn; snd h] = true ->
+  skim_ok P s (snd h :: map snd rest) = true ->
   handle P s (MSwapIn sender (h :: rest) dIn amt minOut) =
   match handle P s (MSwapIn sender [h] dIn amt 1) with
   | Err e => Err e
   | Ok (s1, out) => handle P s1 (MSwapIn sender rest (snd h) out minOut)
   end.
 Proof.
-  intros. rewrite !handle_swap_in.
+  intros s sender h rest dIn amt minOut NE Pm K0 K1 K2. rewrite !handle_swap_in.
   assert (M : 0 <? minOut = true) by (apply Z.ltb_lt; assumption). rewrite M.
   change (0 <? 1) with true. cbn [negb andb].
   destruct (0 <? amt) eqn:A; cbn [andb]; [|reflexivity].
-  rewrite route_in_cons by assumption.
-  destruct (route_exact_in P s sender [h] dIn amt 1) as [[s1 out]|] eqn:E; [|reflexivity].
-  apply route_in_min_out in E. destruct E as [_ Pz].
+  unfold route_exact_in at 1 2. rewrite loop_in_cons by assumption.
+  destruct (route_in_loop P s sender [h] dIn amt 1) as [[s1 out]|] eqn:E; [|reflexivity].
+  pose proof (loop_in_skim _ _ _ _ _ _ _ _ E) as SK1.
+  cbn [map]. rewrite (skim_ok_ext s s1 _ SK1), K1.
+  apply loop_in_min_out in E. destruct E as [_ Pz].
   rewrite handle_swap_in, M.
   assert (O : 0 <? out = true) by (apply Z.ltb_lt; assumption). rewrite O.
-  destruct rest; [congruence|]. reflexivity.
+  assert (NB : negb (match rest with [] => true | _ :: _ => false end) = true) by (destruct rest; [congruence|reflexivity]).
+  rewrite NB. cbn [andb]. unfold route_exact_in.
+  destruct (route_in_loop P s1 sender rest (snd h) out minOut) as [[s2 o2]|] eqn:E2; [|reflexivity].
+  pose proof (loop_in_skim _ _ _ _ _ _ _ _ E2) as SK2.
+  assert (SK : skim s2 = skim s) by congruence.
+  cbn [map] in K0. rewrite !(skim_ok_ext s s2 _ SK), K0, K2. reflexivity.
 Qed.
 
 (* ------------------------------------------------------------------ exact-out: one hop *)
@@ -647,13 +717,27 @@ Proof.
     inversion H; subst. cbn [length]. f_equal. eapply IH; eauto.
 Qed.
 
+(* RouteExactAmountOut = the backward estimate, the forward loop, then the TakerFeeSkim validation *)
+Lemma route_out_ok : forall route s sender maxIn dOutF amtF s' t,
+  route_exact_out P s sender route maxIn dOutF amtF = Ok (s', t) ->
+  exists s1 a0 t0, route <> [] /\ expected_ins P s route dOutF amtF = (s1, Ok (a0 :: t0)) /\
+    route_out_loop P true s1 sender route (maxIn :: t0) dOutF amtF = Ok (s', t) /\
+    skim_ok P s' (dOutF :: map snd route) = true.
+Proof.
+  intros. unfold route_exact_out in H. destruct route as [|h rest]; [discriminate|].
+  destruct (expected_ins P s (h :: rest) dOutF amtF) as [s1 [ins|e]] eqn:E; [|discriminate].
+  pose proof (expected_ins_length _ _ _ _ _ _ E) as Len.
+  destruct ins as [|a0 t0]; [cbn [length] in Len; discriminate|].
+  destruct (route_out_loop P true s1 sender (h :: rest) (maxIn :: t0) dOutF amtF) as [[s2 t2]|] eqn:LP; [|discriminate].
+  destruct (skim_ok P s2 (dOutF :: map snd (h :: rest))) eqn:K; [|discriminate].
+  inversion H; subst. exists s1, a0, t0. repeat split; auto. discriminate.
+Qed.
+
 Theorem route_out_max_in : forall route s sender maxIn dOutF amtF s' t,
   route_exact_out P s sender route maxIn dOutF amtF = Ok (s', t) -> t <= maxIn.
 Proof.
-  intros. unfold route_exact_out in H. destruct route as [|[pid dIn] rest]; [discriminate|].
-  destruct (expected_ins P s ((pid, dIn) :: rest) dOutF amtF) as [s1 [ins|e]] eqn:E; [|discriminate].
-  apply expected_ins_length in E.
-  destruct ins as [|a0 t0]; [cbn [length] in E; discriminate|].
+  intros. apply route_out_ok in H. destruct H as (s1 & a0 & t0 & NE & _ & H & _).
+  destruct route as [|[pid dIn] rest]; [congruence|].
   apply route_out_loop_inv in H. destruct H as (p & s2 & cur & s3 & fee & _ & _ & _ & _ & F & _). auto.
 Qed.
 
@@ -691,14 +775,18 @@ Hypothesis I_out : forall first s pid dIn maxIn dOut amtOut s' t,
   I s -> out_hop first s sender pid dIn maxIn dOut amtOut = Ok (s', t) -> I s'.
 Hypothesis I_est : forall s route dOutF amtF, I s -> I (fst (expected_ins P s route dOutF amtF)).
 
-Lemma route_in_preserves : forall route s dIn amt minOut s' out,
-  I s -> route_exact_in P s sender route dIn amt minOut = Ok (s', out) -> I s'.
+Lemma loop_in_preserves : forall route s dIn amt minOut s' out,
+  I s -> route_in_loop P s sender route dIn amt minOut = Ok (s', out) -> I s'.
 Proof.
-  unfold route_exact_in. induction route as [|[pid dOut] rest IH]; intros; cbn [route_in_loop] in H0; [discriminate|].
+  induction route as [|[pid dOut] rest IH]; intros; cbn [route_in_loop] in H0; [discriminate|].
   destruct (pm_swap_exact_in P s sender pid dIn amt dOut (match rest with [] => minOut | _ :: _ => 1 end)) as [[s1 [o f]]|] eqn:E; [|discriminate].
   apply I_in in E; [|assumption].
   destruct rest as [|h2 rest']; [inversion H0; subst; assumption|]. eapply IH; eauto.
 Qed.
+
+Lemma route_in_preserves : forall route s dIn amt minOut s' out,
+  I s -> route_exact_in P s sender route dIn amt minOut = Ok (s', out) -> I s'.
+Proof. intros. apply route_in_ok in H0. destruct H0 as [H0 _]. eapply loop_in_preserves; eauto. Qed.
 
 Lemma route_out_loop_preserves : forall route first s ins dOutF amtF s' t,
   I s -> route_out_loop P first s sender route ins dOutF amtF = Ok (s', t) -> I s'.
@@ -716,10 +804,8 @@ Qed.
 Lemma route_out_preserves : forall route s maxIn dOutF amtF s' t,
   I s -> route_exact_out P s sender route maxIn dOutF amtF = Ok (s', t) -> I s'.
 Proof.
-  intros. unfold route_exact_out in H0. destruct route as [|h rest]; [discriminate|].
-  pose proof (I_est s (h :: rest) dOutF amtF H) as E.
-  destruct (expected_ins P s (h :: rest) dOutF amtF) as [s1 [ins|e]]; [|discriminate]. cbn [fst] in E.
-  destruct ins as [|a0 t0]; [inversion H0; subst; assumption|].
+  intros. apply route_out_ok in H0. destruct H0 as (s1 & a0 & t0 & _ & E & LP & _).
+  pose proof (I_est s route dOutF amtF H) as IE. rewrite E in IE. cbn [fst] in IE.
   eapply route_out_loop_preserves; eauto.
 Qed.
 
@@ -814,10 +900,9 @@ Qed.
 (* ------------------------------------------------------------------ estimate = execution, exact-in *)
 Lemma est_in_eq_exec : forall route s sender dIn amt minOut s' out,
   NoDup (map fst route) -> fee_neutral s sender ->
-  route_exact_in P s sender route dIn amt minOut = Ok (s', out) ->
+  route_in_loop P s sender route dIn amt minOut = Ok (s', out) ->
   est_in_val s route dIn amt = Ok out.
 Proof.
-  unfold route_exact_in.
   induction route as [|[pid dOut] rest IH]; intros s sender dIn amt minOut s' out ND W H; [discriminate|].
   cbn [route_in_loop] in H.
   destruct (pm_swap_exact_in P s sender pid dIn amt dOut (match rest with [] => minOut | _ :: _ => 1 end)) as [[s1 [o f]]|] eqn:E; [|discriminate].
@@ -840,7 +925,8 @@ Theorem estimate_in_eq_execute : forall route s sender dIn amt minOut s' out,
   route_exact_in P s sender route dIn amt minOut = Ok (s', out) ->
   estimate_in P s route dIn amt = (s, Ok out).
 Proof.
-  intros. unfold estimate_in. destruct route as [|h r]; [discriminate|].
+  intros. apply route_in_ok in H1. destruct H1 as [H1 _].
+  unfold estimate_in. destruct route as [|h r]; [discriminate|].
   rewrite est_in_loop_val. f_equal. eapply est_in_eq_exec; eauto.
 Qed.
 
@@ -909,11 +995,11 @@ Theorem estimate_out_eq_execute : forall route s sender maxIn dOutF amtF s' t,
   route_exact_out P s sender route maxIn dOutF amtF = Ok (s', t) ->
   estimate_out P s route dOutF amtF = (s, Ok t).
 Proof.
-  intros until t. intros W H. unfold route_exact_out in H. unfold estimate_out.
-  destruct route as [|[pid dIn] rest]; [discriminate|].
+  intros until t. intros W H. apply route_out_ok in H. destruct H as (s1' & a0 & t0 & NE & EI & H & _).
+  unfold estimate_out. destruct route as [|[pid dIn] rest]; [congruence|].
   rewrite expected_ins_val in *.
-  destruct (exp_ins_val s ((pid, dIn) :: rest) dOutF amtF) as [ins|] eqn:E; [|discriminate].
-  destruct ins as [|a0 t0]; [apply exp_ins_length in E; simpl in E; discriminate|].
+  destruct (exp_ins_val s ((pid, dIn) :: rest) dOutF amtF) as [ins|] eqn:E; [|inversion EI].
+  inversion EI; subst s1' ins; clear EI.
   cbn [hd]. f_equal. f_equal.
   (* what the estimate computed for the first hop *)
   cbn [exp_ins_val] in E.
@@ -935,14 +1021,15 @@ Proof.
   rewrite TF, CF in C. inversion C. reflexivity.
 Qed.
 
-(* RouteExactAmountOut = the backward estimate, then the left fold of [out_hop] over the hops *)
+(* RouteExactAmountOut = the backward estimate, then the left fold of [out_hop] over the hops, then the skim validation *)
 Theorem route_out_eq_fold : forall route s sender maxIn dOutF amtF, route <> [] ->
   match exp_ins_val s route dOutF amtF with
   | Err e => route_exact_out P s sender route maxIn dOutF amtF = Err e
   | Ok ins =>
     match fold_left (out_step sender) (out_hops true route (maxIn :: tl ins) dOutF amtF) (Ok (s, [])) with
     | Err e => route_exact_out P s sender route maxIn dOutF amtF = Err e
-    | Ok (s', ts) => route_exact_out P s sender route maxIn dOutF amtF = Ok (s', hd 0 ts)
+    | Ok (s', ts) => route_exact_out P s sender route maxIn dOutF amtF =
+                     if skim_ok P s' (dOutF :: map snd route) then Ok (s', hd 0 ts) else Err ESkim
     end
   end.
 Proof.
@@ -1021,7 +1108,7 @@ Qed.
 Lemma out_hop_frame : forall first s sender pid dIn maxIn dOut amtOut s' t,
   out_hop first s sender pid dIn maxIn dOut amtOut = Ok (s', t) ->
   taker_fee s' = taker_fee s /\ whitelisted s' = whitelisted s /\
-  (forall q, q <> pid -> get_pool P (pools s') q = get_pool P (pools s) q).
+  (forall q, q <> pid -> get_pool P (pools s') q = get_pool P (pools s) q) /\ skim s' = skim s.
 Proof.
   intros. unfold out_hop in H.
   destruct (get_pool P (pools s) pid) as [p|]; [|discriminate].
@@ -1030,6 +1117,7 @@ Proof.
   destruct (charge_taker_fee P s1 sender dIn cur dOut false) as [[s2 [after fee]]|] eqn:C; [|discriminate].
   destruct (first && (maxIn <? after)); [discriminate|]. inversion H; subst.
   apply module_out_inv in Md. destruct Md as (p' & tout & _ & _ & _ & _ & St).
+  pose proof (settle_skim _ _ _ _ _ _ _ _ _ St) as K1. pose proof (charge_skim _ _ _ _ _ _ _ _ C) as K2.
   apply settle_inv in St. destruct St as (S1 & S2 & S3 & _).
   apply charge_inv in C. destruct C as (C1 & C2 & C3 & _).
   repeat split; try congruence. intros. rewrite C1, S1. apply get_put_other; assumption.
@@ -1044,12 +1132,29 @@ Proof.
   destruct (negb (match route with [] => true | _ => false end) && (0 <? amtOut) && (0 <? maxIn)); reflexivity.
 Qed.
 
+Lemma route_out_loop_skim : forall route first s sender ins dOutF amtF s' t,
+  route_out_loop P first s sender route ins dOutF amtF = Ok (s', t) -> skim s' = skim s.
+Proof.
+  induction route as [|[pid dIn] rest IH]; intros first s sender ins dOutF amtF s' t H; [destruct ins; discriminate|].
+  destruct ins as [|m ins_rest]; [discriminate|].
+  rewrite route_out_loop_step in H.
+  destruct (out_hop first s sender pid dIn m (fst (next_out rest ins_rest dOutF amtF)) (snd (next_out rest ins_rest dOutF amtF))) as [[s2 after]|] eqn:E; [|discriminate].
+  apply out_hop_frame in E. destruct E as (_ & _ & _ & K).
+  destruct rest as [|h2 rest']; [inversion H; subst; assumption|].
+  destruct (route_out_loop P false s2 sender (h2 :: rest') ins_rest dOutF amtF) as [[s3 t']|] eqn:R; [|discriminate].
+  inversion H; subst. apply IH in R. congruence.
+Qed.
+
 Lemma route_exact_out_val : forall s sender h rest maxIn dOutF amtF,
   route_exact_out P s sender (h :: rest) maxIn dOutF amtF =
   match exp_ins_val s (h :: rest) dOutF amtF with
   | Err e => Err e
   | Ok [] => Ok (s, 0)
-  | Ok (_ :: t) => route_out_loop P true s sender (h :: rest) (maxIn :: t) dOutF amtF
+  | Ok (_ :: t) =>
+    match route_out_loop P true s sender (h :: rest) (maxIn :: t) dOutF amtF with
+    | Err e => Err e
+    | Ok (s', tin) => if skim_ok P s' (dOutF :: map snd (h :: rest)) then Ok (s', tin) else Err ESkim
+    end
   end.
 Proof.
   intros. unfold route_exact_out. rewrite expected_ins_val.
@@ -1075,19 +1180,24 @@ Qed.
    rest of the route, followed by the message for the rest with that estimate as its maximum *)
 Theorem swap_out_msg_compose : forall s sender pid dIn rest maxIn dOutF amtF s' t,
   rest <> [] -> fee_neutral s sender -> ~ In pid (map fst rest) ->
+  (* the taker-fee share agreements let the two parts of the route through *)
+  skim_ok P s [snd (hd (0, 0) rest); dIn] = true -> skim_ok P s (dOutF :: map snd rest) = true ->
   handle P s (MSwapOut sender ((pid, dIn) :: rest) maxIn dOutF amtF) = Ok (s', t) ->
   exists a1 s1 t',
     estimate_out P s rest dOutF amtF = (s, Ok a1) /\
     handle P s (MSwapOut sender [(pid, dIn)] maxIn (snd (hd (0, 0) rest)) a1) = Ok (s1, t) /\
     handle P s1 (MSwapOut sender rest a1 dOutF amtF) = Ok (s', t').
 Proof.
-  intros s sender pid dIn rest maxIn dOutF amtF s' t NE FN NI H.
+  intros s sender pid dIn rest maxIn dOutF amtF s' t NE FN NI K1 K2 H.
   rewrite handle_swap_out in H. cbn [negb andb] in H.
   destruct (0 <? amtF) eqn:VA; [|discriminate]. destruct (0 <? maxIn) eqn:VM; [|discriminate]. cbn [andb] in H.
   rewrite route_exact_out_val in H.
   destruct (exp_ins_val s ((pid, dIn) :: rest) dOutF amtF) as [ins|] eqn:E; [|discriminate].
   pose proof (exp_ins_length _ _ _ _ _ E) as Len.
   destruct ins as [|a0 ins_rest]; [simpl in Len; discriminate|].
+  destruct (route_out_loop P true s sender ((pid, dIn) :: rest) (maxIn :: ins_rest) dOutF amtF) as [[sx tx]|] eqn:H0; [|discriminate].
+  destruct (skim_ok P sx (dOutF :: map snd ((pid, dIn) :: rest))); [|discriminate].
+  inversion H; subst sx tx; clear H. rename H0 into H.
   destruct (exp_ins_cons _ _ _ _ _ _ _ _ E) as (ER & E1).
   pose proof (exp_ins_length _ _ _ _ _ ER) as LenR.
   destruct rest as [|[pid1 d1] rest']; [congruence|].
@@ -1101,7 +1211,8 @@ Proof.
   { unfold R in *. destruct (route_out_loop P false s2 sender ((pid1, d1) :: rest') (a1 :: tl) dOutF amtF) as [[s3 t3]|]; [|discriminate].
     inversion H; subst. eauto. }
   destruct HL as (t' & LOOP & Ha). subst after. clear H.
-  destruct (out_hop_frame _ _ _ _ _ _ _ _ _ _ HOP) as (TF & WL & PF).
+  destruct (out_hop_frame _ _ _ _ _ _ _ _ _ _ HOP) as (TF & WL & PF & SK2).
+  pose proof (route_out_loop_skim _ _ _ _ _ _ _ _ _ LOOP) as SK3.
   assert (ER2 : exp_ins_val s2 R dOutF amtF = Ok (a1 :: tl)).
   { rewrite <- ER. apply exp_ins_val_agree; [|assumption]. intros q Hq. apply PF. intro; subst; contradiction. }
   assert (FN2 : fee_neutral s2 sender) by (unfold fee_neutral in *; rewrite TF, WL; assumption).
@@ -1111,13 +1222,17 @@ Proof.
     destruct LP as (p2 & s1 & cur & s4 & fee & _ & _ & Md & _). apply module_out_inv in Md.
     destruct Md as (p' & tout & _ & Pc & Lc & _). lia. }
   assert (X : 0 <? a1 = true) by (apply Z.ltb_lt; assumption).
+  change (snd (hd (0, 0) R)) with d1 in *.
   exists a1, s2, t'. split; [|split].
   - unfold estimate_out, R. fold R. rewrite expected_ins_val, ER. reflexivity.
-  - change (snd (hd (0, 0) R)) with d1. rewrite handle_swap_out. cbn [negb andb]. rewrite VM, X. cbn [andb].
-    rewrite route_exact_out_val, E1. rewrite route_out_loop_step. cbn [next_out fst snd]. rewrite HOP. reflexivity.
+  - rewrite handle_swap_out. cbn [negb andb]. rewrite VM, X. cbn [andb].
+    rewrite route_exact_out_val, E1. rewrite route_out_loop_step. cbn [next_out fst snd]. rewrite HOP.
+    cbn [map snd]. rewrite (skim_ok_ext s s2 _ SK2), K1. reflexivity.
   - rewrite handle_swap_out. unfold R at 1. cbn [negb andb]. rewrite VA, X. cbn [andb].
     unfold R at 1. rewrite route_exact_out_val. fold R. rewrite ER2.
-    apply out_loop_first_flag; [exact LOOP|lia].
+    rewrite (out_loop_first_flag _ _ _ _ _ _ _ _ _ LOOP) by lia.
+    assert (SK : skim s' = skim s) by congruence.
+    rewrite (skim_ok_ext s s' _ SK), K2. reflexivity.
 Qed.
 
 End WithPool.
